@@ -97,7 +97,7 @@ var routeAssumptions = []string{
 var specs = map[string]Spec{
 	"C01": {
 		Engine: "routesim", Run: "^TestRoute$", Race: true,
-		QuickShards: 16, ThoroughShards: 16, QuickWatchdog: 8 * time.Minute, ThoroughWatchdog: 60 * time.Minute,
+		QuickShards: 16, ThoroughShards: 16, QuickWatchdog: 8 * time.Minute, ThoroughWatchdog: 90 * time.Minute,
 		MaxProcs:    []int{16, 4, 2, 1},
 		Level:       "exploration",
 		LevelText:   "The real routing handlers (sender, receiver, shard manager, ring) run between fake Temporal shards in virtual time under generated workloads (shard-count pairs, batch shapes, idle/slow/late/never-acking/non-reading targets, late connections, probe-induced pre-emption); an online oracle over the boundary event log asserts at every acknowledgement sent to a source that every received task below it was confirmed by its target stream. Sampling of interleavings, not enumeration; -race on.",
@@ -112,7 +112,7 @@ var specs = map[string]Spec{
 	"C02": {
 		ExtraEngine: "wire", ExtraRun: "^TestRoutingWire$", ExtraRace: true, ExtraShards: 8,
 		Engine: "routesim", Run: "^TestRoute$", Race: true,
-		QuickShards: 16, ThoroughShards: 16, QuickWatchdog: 8 * time.Minute, ThoroughWatchdog: 60 * time.Minute,
+		QuickShards: 16, ThoroughShards: 16, QuickWatchdog: 8 * time.Minute, ThoroughWatchdog: 90 * time.Minute,
 		MaxProcs:    []int{16, 4, 2, 1},
 		Level:       "exploration",
 		LevelText:   "Same executions as C01 with the delivery oracle: every task marker handed over by a source must appear exactly once, on the stream of the shard that owns its workflow (harness-side farm32), payload equal after restoring the two id fields, in source order per (source,target); per target stream ids and watermarks must satisfy what Temporal's task tracker requires (a tracker model in the fake target additionally reports every message or task it would drop); at quiescence of fair scenarios every task must have been delivered.",
@@ -126,7 +126,7 @@ var specs = map[string]Spec{
 	},
 	"C03": {
 		Engine: "routesim", Run: "^TestRoute$", Race: true,
-		QuickShards: 16, ThoroughShards: 16, QuickWatchdog: 8 * time.Minute, ThoroughWatchdog: 60 * time.Minute,
+		QuickShards: 16, ThoroughShards: 16, QuickWatchdog: 8 * time.Minute, ThoroughWatchdog: 90 * time.Minute,
 		MaxProcs:    []int{16, 4, 2, 1},
 		Level:       "exploration",
 		LevelText:   "Same executions; safety oracle online (acknowledgements per source-stream incarnation never decrease, never exceed the largest exclusive high watermark handed over so far) and bounded progress on the virtual clock for fair scenarios: after the last confirmation the source must receive an acknowledgement equal to its final watermark within 2*P+12 virtual seconds (P = the source's watermark period), else the case is a violation with the event log as witness.",
